@@ -52,6 +52,9 @@ class FoldConstants(SuiteTransformer):
             # There is no nan literal.
             # we could use float('nan'), but that complicates folding as it's not a Constant
             return node
+        elif isinstance(original_value, complex) and not (is_finite(original_value.real) and is_finite(original_value.imag)):
+            # There is no literal for a complex number with an infinite or nan part, it is printed using the names inf and nan
+            return node
         elif isinstance(original_value, bool):
             new_node = ast.NameConstant(value=original_value)
         elif isinstance(original_value, (int, float, complex)):
@@ -95,6 +98,10 @@ class FoldConstants(SuiteTransformer):
 
         # New representation is shorter and has the same value, so use it
         return self.add_child(new_node, get_parent(node), node.namespace)
+
+
+def is_finite(value):
+    return not (math.isinf(value) or math.isnan(value))
 
 
 def equal_value_and_type(a, b):
